@@ -47,7 +47,8 @@ CogShock == {"Cog19", "Cog20", "Cog21"}
 
 RiemannFams == {"RiemannIG", "RiemannGen"}
 (* families without a 1-D hydrodynamic scan row (burn times, heat conduction, elasticity): relation / field laws only *)
-PlainFams == { "Kenamond1", "Kenamond2", "Kenamond3", "DSDcyl", "Blake", "Rod1D", "Hutchens1"}
+BurnFams  == {"Kenamond1", "Kenamond2", "Kenamond3", "DSDcyl"}
+PlainFams == {"Blake", "Rod1D", "Hutchens1"}
 G_Sedov == {<<"interior", "shock", "ambient">>, <<"vacuum", "cont", "interior">>}
 G_Piston == {<<"plastic", "shock", "elastic">>, <<"elastic", "shock", "rest">>}
 (* escape of HE products: product regions are separated by characteristics (continuous); the only jump is the  *)
@@ -56,7 +57,7 @@ R_EHEP == {"00", "I", "II", "III", "IV", "V", "0H", "0V", "None"}
 G_EHEP == {<<a, "cont", b>> : a \in R_EHEP \ {"0H", "00"}, b \in R_EHEP \ {"0H", "00"}}
           \cup {<<a, "detonation", "0H">> : a \in {"I", "III", "IV", "V"}}
           \cup {<<"00", "piston", b>> : b \in {"I", "II", "III", "IV", "V"}} \cup {<<"0H", "interface", "0V">>}
-Families == {"Noh", "Noh2", "Noh2Cog", "Sedov", "EPpiston", "EHEP", "Mader"} \cup RiemannFams \cup PlainFams \cup CogNone \cup CogDiv \cup CogFull \cup CogShock
+Families == {"Noh", "Noh2", "Noh2Cog", "Sedov", "EPpiston", "EHEP", "Mader"} \cup BurnFams \cup RiemannFams \cup PlainFams \cup CogNone \cup CogDiv \cup CogFull \cup CogShock
 
 Cat == [f \in Families |->
   CASE f = "Noh"        -> Row("gamma", "euler",   "closed", {"post", "pre"}, G_PostPre, FALSE)
@@ -66,6 +67,7 @@ Cat == [f \in Families |->
     [] f = "EPpiston"   -> RowF("additive", "none", "closed", {"plastic", "elastic", "rest"}, G_Piston, FALSE, {"rest"})
     [] f = "EHEP"       -> RowF("gamma", "euler", "ehep", R_EHEP, G_EHEP, TRUE, {})
     [] f = "Mader"      -> RowF("cjisentrope", "none", "table", {"mader"}, G_Smooth, FALSE, {})
+    [] f \in BurnFams   -> RowF("none", "none", "closed", {"detonator", "he"}, G_Smooth, FALSE, {})
     [] f = "RiemannIG"  -> RowF("gamma2", "euler", "closed", R_Riemann, G_Riemann, FALSE, {"R"})
     [] f = "RiemannGen" -> RowF("gamma2", "euler", "table",  R_Riemann, G_Riemann, FALSE, {"R"})
     [] f \in PlainFams  -> Row("none",  "none",    IF f = "Mader" THEN "table" ELSE IF f \in {"Rod1D", "Hutchens1"} THEN "series" ELSE "closed", {"all"}, G_Smooth, FALSE)
